@@ -395,9 +395,15 @@ def check_is_valid(ctx, lib):
     n = 0
     for at in list(SIMPLE_KIND) + ["TypedArray", "Union"]:
         for k in KINDS:
-            def atom(t, at=at):
+            def atom(t, at=at, k=k):
                 if t == ("discr", ("param", 1)):
                     return at
+                # the value's kind inspected directly or through an accessor's answer (`value.as_array().map_or(false, ..)`)
+                if t == ("discr", ("param", 2)):
+                    return k
+                if t[0] == "discr" and t[1][0] == "view" and t[1][2] == ("param", 2):
+                    from ..leaf import VIEW_KIND
+                    return "Some" if VIEW_KIND.get(t[1][1]) == k else "None"
                 return None
 
             def call(t, argvals, k=k):
@@ -405,6 +411,12 @@ def check_is_valid(ctx, lib):
                 if nm.startswith("variable::Variable::is_") and t[2][0] == fs({("param", 2)}):
                     from ..leaf import IS
                     return int(IS[nm.split("::")[-1]] == k)
+                if nm in ("std::option::Option::<T>::is_some", "std::option::Option::<T>::is_none") and len(t[2]) == 1:
+                    from ..leaf import VIEW_KIND
+                    for a in t[2][0]:
+                        if a[0] == "view" and a[2] == ("param", 2):
+                            v = int(VIEW_KIND.get(a[1]) == k)
+                            return v if nm.endswith("is_some") else 1 - v
                 return None
 
             w = Walker(b, o, atom=atom, call=call)
@@ -544,6 +556,14 @@ def check_by_functions(ctx, lib):
                             continue
                         is_ne = c[1].endswith("::ne") != neg
                         ok_edges.append((blk, ft if is_ne else tt))
+            # `matches!(v.get_type(), JmespathType::String | JmespathType::Number)` / a match on the type: the named edges constrain it
+            for blk, t in br.switches():
+                ve = br.variant_edges(blk)
+                if ve and ve["adt"] == "variable::JmespathType" and ve["scrutinee"] and all(
+                        x[0] == "call" and x[1] == "variable::Variable::get_type" and any(res_pred(y) for y in x[2][0]) for x in ve["scrutinee"]):
+                    for nm, tgt in ve["edges"].items():
+                        if tgt != ve["otherwise"]:
+                            ok_edges.append((blk, tgt))
             if not ok_edges:
                 ctx.bad(rule, f"{ty}:site{'-first' if ibb == first_blk else '-rest'}", f"{ty}: the mapped value of this interpret() call is never type-tested", it["span"]["s"])
                 continue
@@ -578,6 +598,12 @@ def check_by_functions(ctx, lib):
                                     for _, _, s in pb.stmts(reachable_only=False):
                                         if s["k"] == "assign" and s["rv"]["k"] == "agg" and s["rv"].get("adt") == "variable::JmespathType":
                                             proms.add(s["rv"]["variant"])
+        first_res0 = lambda x: x[0] == "call" and x[1] == "interpreter::interpret" and x[3] == first_blk
+        for blk, t in br.switches():
+            ve = br.variant_edges(blk)
+            if ve and ve["adt"] == "variable::JmespathType" and ve["scrutinee"] and all(
+                    x[0] == "call" and x[1] == "variable::Variable::get_type" and any(first_res0(y) for y in x[2][0]) for x in ve["scrutinee"]):
+                proms |= {nm for nm, tgt in ve["edges"].items() if tgt != ve["otherwise"]}
         ctx.check(proms == {"String", "Number"}, rule, f"{ty}:first-kind", f"{ty}: the first mapped value must be a string or a number (tests against {sorted(proms)})", b.span)
         # an Ok result is reachable only (a) on the empty-array branch or (b) after the first element's key passed its kind test
         oks, opaque = RT.ok_values(b)
@@ -602,7 +628,25 @@ def check_by_functions(ctx, lib):
                             any(any(x[0] == "promoted" for x in s_) for s_ in sides):
                         is_ne = c[1].endswith("::ne") != neg
                         first_ok_edges.append((blk, be[1] if is_ne else be[0]))
-        bad_ok = [blk for blk, _ in oks if not (any(edge_dominates(b, e, blk) for e in empty_edges) or (first_ok_edges and edges_dominate(b, first_ok_edges, blk)))]
+        discr_ok_sets = []
+        for blk, t in br.switches():
+            ve = br.variant_edges(blk)
+            if ve and ve["adt"] == "variable::JmespathType" and ve["scrutinee"] and all(
+                    x[0] == "call" and x[1] == "variable::Variable::get_type" and any(first_res(y) for y in x[2][0]) for x in ve["scrutinee"]):
+                discr_ok_sets.append([(blk, tgt) for nm, tgt in ve["edges"].items() if tgt != ve["otherwise"]])
+
+        def behind_first_test(blk_):
+            if first_ok_edges and edges_dominate(b, first_ok_edges, blk_):
+                return True
+            # one switch with several accepting edges: none of the other edges may reach the block
+            for es in discr_ok_sets:
+                sw_blk = es[0][0]
+                others = [(sw_blk, x) for x in set(b.succs()[sw_blk]) - {tg for _, tg in es}]
+                if b.dominates(sw_blk, blk_) and blk_ not in reach_avoiding(b, sw_blk, avoid_edges=es) - {sw_blk} or not others:
+                    if b.dominates(sw_blk, blk_) and all(blk_ not in reach_avoiding(b, o_[1]) for o_ in others):
+                        return True
+            return False
+        bad_ok = [blk for blk, _ in oks if not (any(edge_dominates(b, e, blk) for e in empty_edges) or behind_first_test(blk))]
         ctx.check(bool(oks) and bool(empty_edges) and not bad_ok, rule, f"{ty}:no-unchecked-result",
                   f"{ty}: a result is produced only for an empty array or after the first key passed its kind test ({len(oks)} Ok sites, unchecked: {bad_ok})", b.span)
     ctx.floor(rule, n, 6, "interpret() sites in by-functions")
